@@ -52,9 +52,15 @@ def main():
                    's3transfer.processpool"', cwd=scratch)
         out['imports'] = rc == 0
         if not a.no_tests:
-            rc, o = sh('/venv/bin/python -m pytest tests/unit tests/functional -q '
-                       '-p no:cacheprovider --timeout=900 -x 2>&1 | tail -3', cwd=scratch)
-            out['tests_pass'] = ' passed' in o and 'failed' not in o and 'error' not in o.lower()
+            # (the suite has sleep-based tests - TestBoundedExecutor - that fail on
+            # the unchanged tree too when the machine is loaded: up to 3 attempts)
+            for attempt in range(3):
+                rc, o = sh('/venv/bin/python -m pytest tests/unit tests/functional -q '
+                           '-p no:cacheprovider --timeout=900 -x 2>&1 | tail -3', cwd=scratch)
+                out['tests_pass'] = ' passed' in o and 'failed' not in o and \
+                    'error' not in o.lower()
+                if out['tests_pass']:
+                    break
             out['tests_tail'] = o.strip().splitlines()[-1][:200] if o.strip() else ''
         demo = os.path.join(d, 'demo.py')
         if os.path.exists(demo) and not a.no_demo:
